@@ -56,6 +56,15 @@ theorem roots_zero (h : InvW m base limit heap free (0 :: roots) pend lin lazy l
     InvW m base limit heap free roots pend lin lazy live F :=
   h.roots_congr (fun b hb => by simp [Ne.symm hb])
 
+/-- Header writes do not disturb the topological order of the live blocks. -/
+theorem acyclic_upd_header (h : InvW m base limit heap free roots pend lin lazy live F)
+    {p v : Nat} (hp : IsBlock base p) {live' : List Nat} (hsub : ∀ b, b ∈ live' → b ∈ live)
+    (ha : ∃ ord, ord.Perm live' ∧ TopoSorted m ord) :
+    ∃ ord, ord.Perm live' ∧ TopoSorted (upd m p v) ord := by
+  obtain ⟨ord, hperm, hts⟩ := ha
+  exact ⟨ord, hperm, hts.congr (fun b hb =>
+    ptrSlots_upd_header hp (h.live_block (hsub b (hperm.mem_iff.mp hb))).1)⟩
+
 /-- (M1) Change the count of a live block `p` by changing the number of roots that hold it. -/
 theorem header_update (h : InvW m base limit heap free roots pend lin lazy live F)
     {p v : Nat} {roots' : List Nat} (hp : p ∈ live)
@@ -72,7 +81,8 @@ theorem header_update (h : InvW m base limit heap free roots pend lin lazy live 
   have hplazy : p ∉ lazy := by grind
   have hppend : p ∉ pend := by grind
   refine { h with lin_chain := ?_, lazy_chain := ?_, zero_above := ?_, counts := ?_,
-                  fields_live := ?_, roots_live := ?_, pend_hdr := ?_ }
+                  fields_live := ?_, roots_live := ?_, pend_hdr := ?_,
+                  acyclic := h.acyclic_upd_header hpb.1 (fun _ hb => hb) h.acyclic }
   · exact h.lin_chain.frame (fun x hx => upd_other _ _ (by rintro rfl; exact hplin hx))
   · refine h.lazy_chain.frame (fun x hx => upd_other _ _ ?_)
     rintro rfl
@@ -158,8 +168,8 @@ theorem to_lazy {p : Nat} {l1 l2 : List Nat}
     frontier_block := h.frontier_block
     frontier_room := h.frontier_room
     zero_above := by
-      intro a ha hl
-      rw [upd_other _ _ (by omega)]; exact h.zero_above a ha hl
+      intro a ha hl hal
+      rw [upd_other _ _ (by omega)]; exact h.zero_above a ha hl hal
     nodup := hperm.nodup_iff.mpr h.nodup
     cover := fun a => (hperm.mem_iff).trans (h.cover a)
     counts := by
@@ -190,7 +200,11 @@ theorem to_lazy {p : Nat} {l1 l2 : List Nat}
         simp only [List.mem_append, List.mem_cons] at hl ⊢; grind
     pend_hdr := by
       intro b hb
-      rw [upd_other _ _ (by rintro rfl; exact hppend hb)]; exact h.pend_hdr b hb }
+      rw [upd_other _ _ (by rintro rfl; exact hppend hb)]; exact h.pend_hdr b hb
+    acyclic := by
+      refine h.acyclic_upd_header hpb.1 (fun b hb => ?_) (acyclic_remove h.acyclic (fun b hb hq =>
+        huf (ptrSlots_sub_ptrFields (List.mem_append_left _ hb) _ hq)))
+      simp only [List.mem_append, List.mem_cons] at hb ⊢; grind }
 
 /-- (M3) `release_block` on a root whose count is 0: the block moves from `live` to the head of the
 linear free list and its three pointer slots become roots (they are about to be loaded into
@@ -240,8 +254,8 @@ theorem to_lin {p : Nat} {l1 l2 : List Nat}
     frontier_block := h.frontier_block
     frontier_room := h.frontier_room
     zero_above := by
-      intro a ha hl
-      rw [upd_other _ _ (by omega)]; exact h.zero_above a ha hl
+      intro a ha hl hal
+      rw [upd_other _ _ (by omega)]; exact h.zero_above a ha hl hal
     nodup := hperm.nodup_iff.mpr h.nodup
     cover := fun a => (hperm.mem_iff).trans (h.cover a)
     counts := by
@@ -277,7 +291,11 @@ theorem to_lin {p : Nat} {l1 l2 : List Nat}
       · exact hgoal (h.roots_live r (List.mem_cons_of_mem _ hr)) (fun e => hur (e ▸ hr))
     pend_hdr := by
       intro b hb
-      rw [upd_other _ _ (by rintro rfl; exact hppend hb)]; exact h.pend_hdr b hb }
+      rw [upd_other _ _ (by rintro rfl; exact hppend hb)]; exact h.pend_hdr b hb
+    acyclic := by
+      refine h.acyclic_upd_header hpb.1 (fun b hb => ?_) (acyclic_remove h.acyclic (fun b hb hq =>
+        huf (ptrSlots_sub_ptrFields (List.mem_append_left _ hb) _ hq)))
+      simp only [List.mem_append, List.mem_cons] at hb ⊢; grind }
 
 /-- (M4) `acquire_block` case (1): the linear free list has a second element. -/
 theorem acquire_lin {b h' : Nat} {L : List Nat}
@@ -311,8 +329,8 @@ theorem acquire_lin {b h' : Nat} {L : List Nat}
     frontier_block := h.frontier_block
     frontier_room := h.frontier_room
     zero_above := by
-      intro a ha hl
-      rw [upd_other _ _ (by omega)]; exact h.zero_above a ha hl
+      intro a ha hl hal
+      rw [upd_other _ _ (by omega)]; exact h.zero_above a ha hl hal
     nodup := hperm.nodup_iff.mpr h.nodup
     cover := fun a => (hperm.mem_iff).trans (h.cover a)
     counts := by
@@ -325,7 +343,8 @@ theorem acquire_lin {b h' : Nat} {L : List Nat}
       rcases List.mem_cons.mp hx with rfl | hx2
       · exact upd_same _ _ _
       · have hne : x ≠ b := by intro e; rw [e] at hx2; exact hbpend hx2
-        rw [upd_other _ _ hne]; exact h.pend_hdr x hx2 }
+        rw [upd_other _ _ hne]; exact h.pend_hdr x hx2
+    acyclic := h.acyclic_upd_header hbb.1 (fun _ hb => hb) h.acyclic }
 
 /-- (M5) `acquire_block` case (3): both free lists are exhausted, the frontier block becomes the
 linear free list and the frontier moves up by one block.  The only move that changes `F`. -/
@@ -343,12 +362,13 @@ theorem acquire_bump {b : Nat}
   have hmb : m b = 0 := by simpa [Chain] using h.lin_chain.2.2
   exact
   { base_pos := h.base_pos
-    lin_chain := ⟨rfl, hF0, h.zero_above F (Nat.le_refl _) (by omega)⟩
+    lin_chain := ⟨rfl, hF0, h.zero_above F (Nat.le_refl _) (by omega) (by unfold IsBlock at hFb; omega)⟩
     lin_ne := by simp
-    lazy_chain := ⟨rfl, by omega, h.zero_above (F + 64) (by omega) (by omega)⟩
+    lazy_chain := ⟨rfl, by omega, h.zero_above (F + 64) (by omega) (by omega)
+      (by unfold IsBlock at hFb; omega)⟩
     frontier_block := by unfold IsBlock at *; omega
     frontier_room := by omega
-    zero_above := fun a ha hl => h.zero_above a (by omega) hl
+    zero_above := fun a ha hl hal => h.zero_above a (by omega) hl hal
     nodup := by
       have hperm : ([F] ++ [] ++ live ++ (b :: pend)).Perm (F :: ([b] ++ [] ++ live ++ pend)) := by
         apply List.perm_iff_count.mpr; intro a
@@ -376,7 +396,8 @@ theorem acquire_bump {b : Nat}
       intro x hx
       rcases List.mem_cons.mp hx with rfl | hx
       · exact hmb
-      · exact h.pend_hdr x hx }
+      · exact h.pend_hdr x hx
+    acyclic := h.acyclic }
 
 /-- (M6) `acquire_block` case (2), first half: the head `D` of the deferred list becomes the
 (one-element) linear free list; its three pointer slots, which counted as references so far, are now
@@ -423,8 +444,8 @@ theorem acquire_lazy {b D : Nat} {lz : List Nat}
     frontier_block := h.frontier_block
     frontier_room := h.frontier_room
     zero_above := by
-      intro a ha hl
-      rw [upd_other _ _ (by omega)]; exact h.zero_above a ha hl
+      intro a ha hl hal
+      rw [upd_other _ _ (by omega)]; exact h.zero_above a ha hl hal
     nodup := hperm.nodup_iff.mpr h.nodup
     cover := fun a => (hperm.mem_iff).trans (h.cover a)
     counts := by
@@ -448,7 +469,8 @@ theorem acquire_lazy {b D : Nat} {lz : List Nat}
       rcases List.mem_cons.mp hx with rfl | hx2
       · rw [upd_other _ _ (Ne.symm hDb')]; exact hmb
       · have hne : x ≠ D := by intro e; rw [e] at hx2; exact hDpend hx2
-        rw [upd_other _ _ hne]; exact h.pend_hdr x hx2 }
+        rw [upd_other _ _ hne]; exact h.pend_hdr x hx2
+    acyclic := h.acyclic_upd_header hDb.1 (fun _ hb => hb) h.acyclic }
 
 /-- (M7) Writing a non-header word of a block that is on the linear free list or pending changes
 nothing: such blocks may hold arbitrary data. -/
@@ -471,15 +493,24 @@ theorem write_free {q k v : Nat}
     refine ⟨h.live_lazy_block x hx, ?_⟩
     rintro rfl
     simp only [List.mem_append] at hx; grind
+  have hacyc : ∃ ord, ord.Perm live ∧ TopoSorted (upd m (q + k) v) ord := by
+    obtain ⟨ord, hperm, hts⟩ := h.acyclic
+    refine ⟨ord, hperm, hts.congr (fun x hx => ?_)⟩
+    have hxl := hperm.mem_iff.mp hx
+    have hxb := (h.live_block hxl).1
+    have hxq : x ≠ q := by rintro rfl; grind
+    unfold IsBlock at *
+    simp only [ptrSlots]
+    rw [upd_other _ _ (by omega), upd_other _ _ (by omega), upd_other _ _ (by omega)]
   refine { h with lin_chain := ?_, lazy_chain := ?_, zero_above := ?_, counts := ?_,
-                  fields_live := ?_, pend_hdr := ?_ }
+                  fields_live := ?_, pend_hdr := ?_, acyclic := hacyc }
   · exact h.lin_chain.frame (fun x hx => upd_other _ _ (hne x (h.lin_block hx).1))
   · refine h.lazy_chain.frame (fun x hx => upd_other _ _ (hne x ?_))
     rcases List.mem_append.mp hx with hx | hx
     · exact (h.lazy_block hx).1
     · rw [List.mem_singleton.mp hx]; exact hFb
-  · intro a ha hl
-    rw [upd_other _ _ (by unfold IsBlock at *; omega)]; exact h.zero_above a ha hl
+  · intro a ha hl hal
+    rw [upd_other _ _ (by unfold IsBlock at *; omega)]; exact h.zero_above a ha hl hal
   · intro x hx
     rw [hpf, upd_other _ _ (hne x (h.live_block hx).1)]; exact h.counts x hx
   · rw [hpf]; exact h.fields_live
@@ -510,15 +541,24 @@ theorem frame_free {m' : Nat → Nat} {q : Nat}
       simp only [List.mem_append] at hx; grind
     unfold IsBlock at *
     refine ⟨hf _ ?_, hf _ ?_, hf _ ?_⟩ <;> omega
+  have hacyc : ∃ ord, ord.Perm live ∧ TopoSorted m' ord := by
+    obtain ⟨ord, hperm, hts⟩ := h.acyclic
+    refine ⟨ord, hperm, hts.congr (fun x hx => ?_)⟩
+    have hxl := hperm.mem_iff.mp hx
+    have hxb := (h.live_block hxl).1
+    have hxq : x ≠ q := by rintro rfl; grind
+    unfold IsBlock at *
+    simp only [ptrSlots]
+    rw [hf _ (by omega), hf _ (by omega), hf _ (by omega)]
   refine { h with lin_chain := ?_, lazy_chain := ?_, zero_above := ?_, counts := ?_,
-                  fields_live := ?_, pend_hdr := ?_ }
+                  fields_live := ?_, pend_hdr := ?_, acyclic := hacyc }
   · exact h.lin_chain.frame (fun x hx => hblk x (h.lin_block hx).1)
   · refine h.lazy_chain.frame (fun x hx => hblk x ?_)
     rcases List.mem_append.mp hx with hx | hx
     · exact (h.lazy_block hx).1
     · rw [List.mem_singleton.mp hx]; exact hFb
-  · intro a ha hl
-    rw [hf a (by unfold IsBlock at *; omega)]; exact h.zero_above a ha hl
+  · intro a ha hl hal
+    rw [hf a (by unfold IsBlock at *; omega)]; exact h.zero_above a ha hl hal
   · intro x hx
     rw [hpf, hblk x (h.live_block hx).1]; exact h.counts x hx
   · rw [hpf]; exact h.fields_live
@@ -594,7 +634,14 @@ theorem adopt {b : Nat} {rest : List Nat}
       · rcases h.roots_live r (List.mem_append_right _ hr) with h0 | hl
         · exact Or.inl h0
         · exact Or.inr (List.mem_cons_of_mem _ hl)
-    pend_hdr := fun x hx => h.pend_hdr x (List.mem_cons_of_mem _ hx) }
+    pend_hdr := fun x hx => h.pend_hdr x (List.mem_cons_of_mem _ hx)
+    acyclic := by
+      obtain ⟨ord, hperm', hts⟩ := h.acyclic
+      refine ⟨b :: ord, List.Perm.cons b hperm', ⟨?_, hts⟩⟩
+      intro q hq
+      rcases h.roots_live q (List.mem_append_left _ hq) with h0 | hl
+      · exact Or.inl h0
+      · exact Or.inr (hperm'.mem_iff.mpr hl) }
 
 end InvW
 end Scc.Heap
